@@ -13,6 +13,7 @@ import (
 
 	gomavlib "github.com/bluenviron/gomavlib/v3"
 	"github.com/bluenviron/gomavlib/v3/pkg/dialects/ardupilotmega"
+	"github.com/bluenviron/gomavlib/v3/pkg/dialects/common"
 	"github.com/bluenviron/gomavlib/v3/pkg/timednetconn"
 	"pgregory.net/rapid"
 
@@ -510,7 +511,34 @@ func runSerial(phases []phase) error {
 		}
 		ierr := fmt.Errorf("injected serial read error %d", pi)
 		injected = append(injected, ierr)
+		if ph.kind == "writefail-then-readerr" {
+			// the last write before the read fault fails: the close event must still carry the read error
+			p.FailNextWrite(errors.New("injected serial write error"))
+			n.WriteMessageAll(&common.MessageDebug{TimeBootMs: uint32(pi)}) //nolint:errcheck
+			p.WaitWriteCalls(p.WriteCalls()+0, 50*time.Millisecond)
+			time.Sleep(3 * time.Millisecond)
+		}
+		stalled := ph.kind == "readerr-stalled"
+		mu.Lock()
+		opensBefore := opened
+		mu.Unlock()
+		if stalled {
+			rec.Pause() // the application stops consuming events: the close event stays undelivered
+			if !rec.WaitPaused(bound) {
+				return fmt.Errorf("BROKEN: consumer did not park")
+			}
+		}
 		p.FailReads(ierr)
+		if stalled {
+			time.Sleep(5 * c14Reconnect)
+			mu.Lock()
+			opensNow := opened
+			mu.Unlock()
+			rec.Resume()
+			if opensNow != opensBefore {
+				return fmt.Errorf("phase %d: the device was opened again (%d -> %d opens) while the close event of the previous channel had not been delivered yet: two channels of a one-channel endpoint at once", pi, opensBefore, opensNow)
+			}
+		}
 		ends++
 		if !rec.WaitFor(bound, func(recs []sim.Rec) bool {
 			c := 0
@@ -555,7 +583,7 @@ func init() {
 
 func TestC14Clients(t *testing.T) {
 	rec := evid.New(t, "C14", "client-type endpoints under generated fault sequences: TCP client against a harness server that is down for a while (failed connection attempts), accepts and then ends the connection by EOF, reset or silence (idle timeout); serial endpoint (hooked opener) whose open fails several times and whose reads fail with an injected error; oracles: strictly alternating open/close events (never two channels at once), every close event carries an error matching the injected cause, a fresh channel opens after every close but not earlier than the reconnect delay, connections seen by the peer == open events; non-trivial = >=2 consecutive failures including a failed connect; distinct by hash of the phases")
-	rec.Require("tcp-client", "serial", "udp-client", "failed-connect-then-failure", "idle-expiry", "reset")
+	rec.Require("tcp-client", "serial", "udp-client", "failed-connect-then-failure", "idle-expiry", "reset", "consumer-stalled-across-close", "write-failure-before-read-fault")
 	evid.Check(t, rec, evid.N(14, 80), func(t *rapid.T) {
 		// several independent sub-scenarios run concurrently to use the waiting time
 		k := rapid.IntRange(3, 6).Draw(t, "batch")
@@ -575,7 +603,7 @@ func TestC14Clients(t *testing.T) {
 					s.phases = s.phases[:3]
 				}
 			} else {
-				s.phases = drawPhases(t, []string{"down", "readerr", "readerr"})
+				s.phases = drawPhases(t, []string{"down", "readerr", "readerr", "readerr-stalled", "writefail-then-readerr"})
 			}
 			subs = append(subs, s)
 		}
@@ -612,6 +640,12 @@ func TestC14Clients(t *testing.T) {
 				}
 				if p.kind == "reset" {
 					cls = append(cls, "reset")
+				}
+				if p.kind == "readerr-stalled" {
+					cls = append(cls, "consumer-stalled-across-close")
+				}
+				if p.kind == "writefail-then-readerr" {
+					cls = append(cls, "write-failure-before-read-fault")
 				}
 			}
 			if nt {
